@@ -594,26 +594,27 @@ class TRS:
         if trs in ['', None]:
             trs = MC._UNDEF_TRS
 
-        # Enforce lowercase to match pyTRS standard.
-        trs = str(trs).lower()
-        mo = TRS._TRS_UNPACKER_REGEX.search(trs)
+        # The entire string must be in the pyTRS standard format. (N/S and
+        # E/W get enforced as lowercase below, to match pyTRS standard.)
+        trs = str(trs)
+        mo = TRS._TRS_UNPACKER_REGEX.fullmatch(trs)
         if not mo:
             return dct
 
         # Break down Twp
         if mo.group('twp_num') and mo.group('ns'):
-            dct['twp'] = mo.group('twp')
+            dct['twp'] = mo.group('twp').lower()
             dct['twp_num'] = int(mo.group('twp_num'))
-            dct['twp_ns'] = mo.group('ns')
+            dct['twp_ns'] = mo.group('ns').lower()
         elif mo.group('twp') == MC._UNDEF_TWP:
             dct['twp'] = mo.group('twp')
             dct['twp_undef'] = True
 
         # Break down Rge
         if mo.group('rge_num') and mo.group('ew'):
-            dct['rge'] = mo.group('rge')
+            dct['rge'] = mo.group('rge').lower()
             dct['rge_num'] = int(mo.group('rge_num'))
-            dct['rge_ew'] = mo.group('ew')
+            dct['rge_ew'] = mo.group('ew').lower()
         elif mo.group('rge') == MC._UNDEF_RGE:
             dct['rge'] = mo.group('rge')
             dct['rge_undef'] = True
